@@ -956,6 +956,12 @@ def rule_r11(chk, p, t):
         r.guard(ci.qualname + ".fromConfig", two)
 
 
+def rule_r12(chk, p, t):
+    from rules.shared_engine import rule_transactional_engine
+
+    rule_transactional_engine(chk, p, t, "C09.R12")
+
+
 def run(chk, p, t):
     chk.explanation = (
         "Static decision of structural necessary conditions of C09: (R1) every row built on a run path is keyed by a "
@@ -968,7 +974,7 @@ def run(chk, p, t):
         "step / output-step combinations."
     )
     chk.assumptions += ["SQLAlchemy session semantics (commit / rollback / close)", "SQLite does not enforce the declared foreign keys (hence the static obligation)", "rows loaded from the importer are epoch aligned (external input)"]
-    steps = [("C09.R1", rule_r1), ("C09.R2", rule_r2), ("C09.R3", rule_r3), ("C09.R4", rule_r4), ("C09.R5", rule_r5), ("C09.R6", rule_r6_r7), ("C09.R8", rule_r8), ("C09.R9", rule_r9), ("C09.R10", rule_r10), ("C09.R11", rule_r11)]
+    steps = [("C09.R1", rule_r1), ("C09.R2", rule_r2), ("C09.R3", rule_r3), ("C09.R4", rule_r4), ("C09.R5", rule_r5), ("C09.R6", rule_r6_r7), ("C09.R8", rule_r8), ("C09.R9", rule_r9), ("C09.R10", rule_r10), ("C09.R11", rule_r11), ("C09.R12", rule_r12)]
     for rid, fn in steps:
         if chk.only_rule is not None and chk.only_rule != rid and not (chk.only_rule == "C09.R7" and rid == "C09.R6"):
             continue
